@@ -113,6 +113,10 @@ class ReaderHarness(Harness):
             self.cov["words"] = self.cov.get("words", 0) + 1
         # judged at the end of the cycle: a one-word buffer may hand over a word and take the next reservation in the same cycle
         if len(exp) > self.capacity:
+            # not a violation by itself (a core may hold words in registers behind its FIFO): the property's oracle is the lost word, which the
+            # memory below reports (port.read_word_dropped: rdata.valid while the core cannot take it); counted for the evidence only
+            self.cov["reads_in_flight_above_fifo_capacity"] = self.cov.get("reads_in_flight_above_fifo_capacity", 0) + 1
+        if False:
             self.report("dma.reader_overrun", "%d reads accepted and not yet delivered, the data FIFO holds %d words (fifo_depth %d%s)" % (len(exp), self.capacity, self.depth, ", buffered" if self.capacity > self.depth else ""))
         ev = 0
         coop = cr == 1 and rch == self.resp.default_choice(rs)
